@@ -295,3 +295,44 @@ fn witness_find_uci_near_miss_spellings_are_rejected() {
     }
     assert_eq!(bad, 0);
 }
+
+/// "applying a list of moves is all-or-nothing … error at any index": lists of 0..5 accepted moves (both colours move, the
+/// full-move number, clocks, rights and e.p. square change on the way) followed by a rejected one; afterwards the position
+/// — every field of it — is the one before the call
+#[test]
+fn witness_make_uci_list_rejected_at_any_index() {
+    let mut bad = 0;
+    let mut x: u64 = 0x9E3779B97F4A7C15;
+    for fen in FENS.iter().copied().chain(["rnbqkbnr/pppppppp/8/8/8/8/PPPPPPPP/RNBQKBNR w KQkq - 0 1", "r3k2r/pppq1ppp/2npbn2/2b1p3/2B1P3/2NPBN2/PPPQ1PPP/R3K2R b KQkq - 7 19",
+                                           "8/P5k1/8/3pP3/8/8/6p1/K6R w - d6 0 90"]) {
+        for k in 0..6usize {
+            for round in 0..3 {
+                let mut board = Bitboard::from_fen_string_unchecked(fen);
+                let before = snap(&board);
+                // a random legal line of length k, played on a scratch board to collect the texts
+                let mut line: Vec<String> = Vec::new();
+                let mut scratch = Bitboard::from_fen_string_unchecked(fen);
+                for _ in 0..k {
+                    let legal = scratch.generate_legal_moves();
+                    if legal.is_empty() { break; }
+                    x ^= x << 13; x ^= x >> 7; x ^= x << 17;
+                    let mv = legal[(x % legal.len() as u64) as usize];
+                    line.push(mv.to_uci_string());
+                    scratch.make(mv);
+                }
+                // the rejected move: unknown text, or a pseudo-legal move that leaves the king attacked when there is one
+                let legal: Vec<String> = scratch.generate_legal_moves().iter().map(|m| m.to_uci_string()).collect();
+                let illegal = scratch.generate_pseudo_legal_moves().iter().map(|m| m.to_uci_string()).find(|u| !legal.contains(u));
+                let rejected = match (round, illegal) { (0, _) => "a1a1".to_string(), (1, Some(u)) => u, (1, None) => "e9e9".to_string(), _ => "zzzz".to_string() };
+                line.push(rejected);
+                let res = board.make_all_uci(&line);
+                let after = snap(&board);
+                if res.is_ok() || after != before {
+                    if bad < 4 { println!("FAILING-INPUT: fen={:?} make_all_uci({:?}) -> ok={}: position afterwards {:?}, before {:?}", fen, line, res.is_ok(), after, before); }
+                    bad += 1;
+                }
+            }
+        }
+    }
+    assert_eq!(bad, 0);
+}
